@@ -109,7 +109,7 @@ num: /[0-9]+/
 // composeDetGrammar builds one grammar from the chosen blocks and options.
 func composeDetGrammar(name string, blocks []*detBlock, src *sim.Src) (text, desc string) {
 	lang := "go"
-	goOnly, wantEvents, wantNoEvents, needErr, noBison := false, false, false, false, false
+	goOnly, wantEvents, wantNoEvents, needErr, noBison, needUnicode := false, false, false, false, false, false
 	parserK := 1
 	for _, b := range blocks {
 		if b.lang == "go" || b.parser != "" {
@@ -123,6 +123,9 @@ func composeDetGrammar(name string, blocks []*detBlock, src *sim.Src) (text, des
 		}
 		if b.needs["error"] {
 			needErr = true
+		}
+		if b.needs["unicode"] {
+			needUnicode = true // patterns beyond \xff: not compatible with scanBytes
 		}
 		if b.needs["nobison"] {
 			noBison = true // the Bison exporter cannot print lookaheads / state markers
@@ -199,6 +202,9 @@ func composeDetGrammar(name string, blocks []*detBlock, src *sim.Src) (text, des
 		if events && src.Chance(1, 4) {
 			set("tokenStream", true)
 		}
+	}
+	if src.Chance(1, 4) && !needUnicode {
+		set("scanBytes", true)
 	}
 	set("aliasIncludesOptSuffix", false)
 	set("optInstantiationSuffix", `"opt"`)
@@ -278,6 +284,31 @@ func stripArrows(rules string) string {
 	return strings.Join(out, "\n")
 }
 
+// wideGrammar is a synthetic "wide and tall" grammar: nWords nonterminals recognising
+// distinct 12-bit words over two terminals. With 2600 words it compiles into ~7800 states,
+// i.e. more than 2^24 goto cells — beyond the largest shipped grammar (js: 8.7M) — in a
+// fraction of a second.
+func wideGrammar(name string, nWords int) string {
+	var sb strings.Builder
+	fmt.Fprintf(&sb, "# synthetic wide grammar (%d nonterminals over 12-bit words)\nlanguage %s(go);\n\nlang = %q\npackage = \"example.com/zz/%s\"\noptimizeTables = true\n\n:: lexer\n\nspace: /[\\t\\r\\n ]+/ (space)\n'0': /0/\n'1': /1/\n\n:: parser\n\ninput:\n    item+ ;\n\nitem:\n", nWords, name, name, name)
+	for i := 0; i < nWords; i++ {
+		sep := "  |"
+		if i == 0 {
+			sep = "   "
+		}
+		fmt.Fprintf(&sb, "%s w%d\n", sep, i)
+	}
+	sb.WriteString(";\n\n")
+	for i := 0; i < nWords; i++ {
+		fmt.Fprintf(&sb, "w%d:", i)
+		for b := 11; b >= 0; b-- {
+			fmt.Fprintf(&sb, " '%d'", (i>>uint(b))&1)
+		}
+		sb.WriteString(" ;\n")
+	}
+	return sb.String()
+}
+
 // composeDetPool writes n composed grammars into scratch and returns them as pool entries.
 func composeDetPool(cfg *config, n int) ([]detPool, map[string]string, error) {
 	blocks, err := loadDetBlocks(filepath.Join(cfg.verifDir, "harness", "detsim", "blocks"))
@@ -353,5 +384,13 @@ func composeDetPool(cfg *config, n int) ([]detPool, map[string]string, error) {
 		pool = append(pool, detPool{ID: id, Path: p})
 		descs[id] = desc
 	}
+	// size thresholds: one grammar far larger than any shipped one
+	wname := "wide"
+	wp := filepath.Join(dir, wname+".tm")
+	if err := os.WriteFile(wp, []byte(wideGrammar(wname, 2600)), 0o644); err != nil {
+		return nil, nil, err
+	}
+	pool = append(pool, detPool{ID: "composed/" + wname, Path: wp})
+	descs["composed/"+wname] = "go/wide[2600 nonterminals over 12-bit words | optimizeTables]"
 	return pool, descs, nil
 }
